@@ -9,7 +9,10 @@ FUNCS = ["data:TimeRecurrence.__add__", "data:TimeRecurrence.__eq__",
          "data:TimeRecurrence.__hash__", "data:TimeRecurrence.__init__",
          "ghost:rec_shift_and_back", "ghost:rec_equal_implies_equal_hash",
          "ghost:rec_unequal_when_one_component_differs",
-         "parsers:TimeRecurrenceParser.parse"]
+         "parsers:TimeRecurrenceParser.parse", "ghost:rec_text_round_trip"]
+# bounded start/interval recurrences take ~10 min each to generate (nonlinear (n-1) x interval
+# in the constructor): thorough tier only
+QUICK_FILTER = {"ghost:rec_text_round_trip": lambda c: not c.startswith("fwd-bounded")}
 LEMMAS = CAL_LEMMAS
 CANARIES = ["canary.week52"]
 QUICK_MODES = ["gregorian", "360day"]
@@ -19,7 +22,11 @@ EXPLANATION = (
     "points CCYY-MM-DDThh:mm:ss with Z or +hh:mm, interval PnDTnH): repetitions, start / "
     "second / end point fields and interval components are exactly those spelled (regex "
     "groups spanning several pieces by the lexing lemma, then the real point and duration "
-    "parsers and the real constructor). "
+    "parsers and the real constructor). TEXT ROUND TRIP: the REAL str(r) and the REAL "
+    "parse composed on symbolic recurrences (unbounded start/interval and interval/end, "
+    "single-point; whole-second points, intervals of days/hours/minutes/seconds; bounded "
+    "start/interval in the thorough tier): parse(str(r)) == r and prints the same text "
+    "(ghost program rec_text_round_trip; equal hashes by rec_equal_implies_equal_hash). "
     "PROVED (exact shift durations, every notation incl. single-point recurrences): r + d "
     "has the same repetitions and interval and every anchor moved by len(d); d + r == r + d; "
     "(r + d) - d == r; == is exactly agreement of repetitions, start, end (by instant) and "
